@@ -17,6 +17,8 @@ for p in mutants/*.patch; do
     real_anyio_read_timeout_ignored.patch) id="C15 C16";;
     real_sync_connect_timeout_dropped.patch|real_tlsintls_read_no_timeout.patch) id=C16;;
     real_sync_tlsintls_close_noop.patch) id=C06;;
+    real_sync_partial_write_drops_byte.patch) id=C03;;
+    real_trio_sni_dropped.patch) id=C10;;
   esac
   timeout 1500 tools/mutant.sh "$p" $id | cut -c1-160
 done
